@@ -190,6 +190,8 @@ func (t *ty) lean() string {
 		return "List Bool"
 	case "cleanopt":
 		return "Bool"
+	case "cfgopts":
+		return "List (GoSnaps.Cfg → GoSnaps.Cfg)"
 	case "anym":
 		return "GoSnaps.GoIO.AnyMatcher"
 	case "typem":
@@ -231,7 +233,18 @@ func (t *ty) eq(u *ty) bool {
 	if t.k == "pair" {
 		return t.a.eq(u.a) && t.b.eq(u.b)
 	}
-	return t.k != "func" && t.k != "?"
+	if t.k == "func" {
+		if len(t.params) != len(u.params) || !t.res.eq(u.res) || t.part != u.part {
+			return false
+		}
+		for i := range t.params {
+			if !t.params[i].eq(u.params[i]) {
+				return false
+			}
+		}
+		return true
+	}
+	return t.k != "?"
 }
 
 // ---------------------------------------------------------------------------------------------
@@ -347,6 +360,12 @@ var funcSpecs = []funcSpec{
 			"yaml.GetValue": {"yamlGetValue", fnOf(pairOf(tText, tErr), tYNode)},
 			"yaml.Update":   {"yamlUpdate", fnOf(pairOf(tYFile, tErr), tYFile, tYPath, tText)}, "yaml.MarshalFile": {"yamlMarshal", fnOf(tText, tYFile, tBool)},
 			"typeCheck": {"typeCheckFn", fnOf(tErr, tText)}, "typePlaceholder": {"typePlaceholderFn", fnOf(tText, tText)}}},
+	// Config options
+	{pkg: "snaps", name: "Update", sig: "u:bool->func(*Config)", out: "IO"},
+	{pkg: "snaps", name: "Filename", sig: "name:string->func(*Config)", out: "IO"},
+	{pkg: "snaps", name: "Dir", sig: "dir:string->func(*Config)", out: "IO"},
+	{pkg: "snaps", name: "Ext", sig: "ext:string->func(*Config)", out: "IO"},
+	{pkg: "snaps", name: "WithConfig", sig: "args:...func(*Config)->*Config", out: "IO"},
 	// the Match* flows
 	{pkg: "snaps", name: "handleError", sig: "t:testingT,err:any->", out: "IO", fx: "st"},
 	{pkg: "snaps", name: "takeSnapshot", sig: "objects:[]any->string", out: "IO"},
@@ -591,6 +610,10 @@ func goType(e ast.Expr) *ty {
 			return tMap1
 		}
 	case *ast.FuncType:
+		// func(*Config): an option; applying it may change the Config it is given (in-out)
+		if e.Results == nil && len(e.Params.List) == 1 && selName(e.Params.List[0].Type) == "*Config" {
+			return &ty{k: "func", params: []*ty{tCfg}, res: tCfg}
+		}
 		// func(string, int) string: a formatter; it may be a function that can panic
 		if e.Results != nil && len(e.Results.List) == 1 && len(e.Params.List) == 2 &&
 			selName(e.Params.List[0].Type) == "string" && selName(e.Params.List[1].Type) == "int" && selName(e.Results.List[0].Type) == "string" &&
@@ -609,6 +632,9 @@ func goType(e ast.Expr) *ty {
 			return tMatchs
 		case "CleanOpts":
 			return tBools
+		}
+		if ft, ok := e.Elt.(*ast.FuncType); ok && ft.Results == nil && len(ft.Params.List) == 1 && selName(ft.Params.List[0].Type) == "*Config" {
+			return &ty{k: "cfgopts"}
 		}
 	case *ast.SelectorExpr:
 		switch selName(e) {
@@ -1906,11 +1932,12 @@ func (t *ftr) rangeStmt(s *ast.RangeStmt, ind string, res *ty) string {
 		t.pop()
 		return b.String()
 	}
-	if xs.t.k != "texts" && xs.t.k != "merrs" && xs.t.k != "matchers" && xs.t.k != "dirents" && xs.t.k != "godecls" {
+	if xs.t.k != "texts" && xs.t.k != "merrs" && xs.t.k != "matchers" && xs.t.k != "dirents" && xs.t.k != "godecls" && xs.t.k != "cfgopts" {
 		t.stmtFail(&b, ind, "range over %s (only []string is supported; a string ranges over runes)", xs.t.lean())
 		return b.String()
 	}
-	elemT := map[string]*ty{"texts": tText, "merrs": tMErr, "matchers": tMatch, "dirents": tDirE, "godecls": tDecl}[xs.t.k]
+	elemT := map[string]*ty{"texts": tText, "merrs": tMErr, "matchers": tMatch, "dirents": tDirE, "godecls": tDecl,
+		"cfgopts": {k: "func", params: []*ty{tCfg}, res: tCfg}}[xs.t.k]
 	whole, indexed := assignedIn(s.Body)
 	if whole["?"] || (k != "_" && whole[k]) {
 		t.stmtFail(&b, ind, "the loop body assigns the range index")
@@ -2252,6 +2279,16 @@ func translateFunc(pkg *pkgInfo, sp *funcSpec, consts map[string]bool, funcs map
 				t.muts[id.Name] = true
 			}
 		case *ast.CallExpr:
+			// f(&x): the callee may change x
+			for _, a := range s.Args {
+				if u, ok := a.(*ast.UnaryExpr); ok && u.Op == token.AND {
+					if id, ok := u.X.(*ast.Ident); ok {
+						if _, isOpt := s.Fun.(*ast.Ident); isOpt && len(s.Args) == 1 {
+							t.muts[id.Name] = true
+						}
+					}
+				}
+			}
 			// yaml.Update(f, …) rewrites the parsed file f in place
 			if selName(s.Fun) == "yaml.Update" && len(s.Args) > 0 {
 				if id, ok := s.Args[0].(*ast.Ident); ok {
